@@ -25,7 +25,9 @@ SPEC = {
              "first + join, join on a finished target, contended mutex, cond wait, barrier, join counter, uncond, felock, "
              "usleep, tryjoin, timedjoin, once, timedlock); each switching call is made from a pure-assembly routine that "
              "loads rbx,rbp,r12-r15 with patterns and compares them on return; each thread keeps a 1-48 KiB pattern array "
-             "on its stack; MYTH_VERIF_ALIGN checks every switch callback. Non-trivial = >=1 successful steal (so probes "
+             "on its stack; MYTH_VERIF_ALIGN checks every switch callback; 40% of the runs use a default stack size "
+             "(MYTH_DEF_STKSIZE) that is not a multiple of 16, half use per-thread sizes 256 KiB + {8,24,4,1}, and a quarter of "
+             "the probe threads are created with a NULL attribute. Non-trivial = >=1 successful steal (so probes "
              "came back on another worker); distinct = distinct (hook ids that fired, worker count, profile kind, shape)."),
     "assume": ["the 128-byte red-zone skip protects the library's own frame; whether removing it corrupts anything depends on "
                "gcc's frame layout: sampled by the -O2 build, not decided (DESIGN 8.1)",
@@ -33,11 +35,23 @@ SPEC = {
 }
 
 
+def env_extra(r, tier, v, nw):
+    # default stack sizes that are not multiples of 16 (taken verbatim by the library); the probe threads keep
+    # up to 48 KiB on their stacks, so the sizes stay >= 256 KiB
+    if r.random() < 0.4:
+        return {"MYTH_DEF_STKSIZE": str(r.choice([262152, 300008, 393240, 262148, 262147, 524289]))}
+    return {}
+
+
+SPEC["env_extra"] = env_extra
+
+
 def args(r, tier, v, nw):
     groups = r.choice([2, 4, 8, 16])
     gsize = r.choice([2, 4, 8, 16, 32])
     steps = r.choice([100, 200, 400]) if tier == "quick" else r.choice([200, 400, 800])
-    return ["groups=%d" % groups, "gsize=%d" % gsize, "steps=%d" % steps], "g%dx%d" % (groups, gsize)
+    odd = r.choice([0, 1])
+    return ["groups=%d" % groups, "gsize=%d" % gsize, "steps=%d" % steps, "oddstack=%d" % odd], "g%dx%d%s" % (groups, gsize, "o" if odd else "")
 
 
 SPEC["args"] = args
